@@ -20,6 +20,12 @@ class C02(SessionCheck):
             data = bytes(rng.randrange(256) for _ in range(n))
             script = [rng.choice([1, 2, 3, 7, n or 1, 0, -1, 5000]) for _ in range(rng.randint(0, 8))]
             out.append({'kind': 'write', 'data': data.hex(), 'script': script, 'base11': rng.random() < 0.5})
+        # payloads whose UTF-8 length sits on and around powers of two (implementations that cut messages into chunks or blocks
+        # meet their boundaries there), written in a few large pieces
+        for n in (4095, 4096, 4097, 65535, 65536, 65537, 131072, 196608):
+            for b11 in (True, False):
+                data = (b'<m>' + b'a' * (n - 7) + b'</m>')
+                out.append({'kind': 'write', 'data': data.hex(), 'script': [rng.choice([n + 100, 70000, 4096, 65536])] * 60, 'base11': b11})
         # real sockets: the peer stays connected but stops reading while a message larger than the socket buffers is being written -
         # the transport can accept no more bytes; the session must FAIL (error to the pending request, disconnected), not sit there
         for tr in (['unix', 'tls'] if tier == 'thorough' else ['unix']):
@@ -27,36 +33,8 @@ class C02(SessionCheck):
         return out
 
     def run_stall(self, case):
-        import time
         from impl import e2e
-        from ncclient.xml_ import new_ele
-        sc = {'transport': case['transport'], 'profile': 'default'}
-        srv = e2e.make_server(sc, None)
-        try:
-            m = e2e.connect(srv, sc, timeout=case['timeout'])
-            srv.stop_reading.set()
-            time.sleep(0.05)
-            m.async_mode = True
-            big = new_ele('big')
-            big.text = 'x' * case['size']
-            t0 = time.time()
-            r = m.dispatch(big)
-            small = m.dispatch(new_ele('after'))
-            deadline = t0 + case['timeout'] + 6
-            while time.time() < deadline and (m.connected or not r.event.is_set()):
-                time.sleep(0.02)
-            res = {'connected': m.connected, 'failed': r.event.is_set() and r.error is not None, 'error': type(r.error).__name__ if r.error is not None else None,
-                   'second_failed': small.event.is_set() and small.error is not None, 'dt': time.time() - t0, 'worker_alive': m._session.is_alive()}
-            srv.stop_reading.clear()
-            try:
-                m._session.close()
-            except Exception:
-                pass
-            return res
-        except Exception as e:
-            return {'harness_error': type(e).__name__ + ': ' + str(e)[:100]}
-        finally:
-            srv.cleanup()
+        return e2e.run_stall(case)
 
     def run_impl(self, case):
         if case.get('kind') == 'stall':
